@@ -4,11 +4,38 @@
 # (or, with expect=pass, still succeeds).  Only Funcs.lean is touched, and it is restored afterwards.
 #   usage: mut_translate.sh <name> <file.go> <perl-substitution> [expect=fail|pass]
 #          mut_translate.sh suite          -- one mutation per target group (old and new), see the list at the end
+#          mut_translate.sh suite4         -- the phase-4 entries only
 set -u
-TIE_MODULES="Girc.Props.TieNames Girc.Props.TieGlob Girc.Props.TieWire Girc.Props.TieModes Girc.Props.TieCtcp Girc.Props.TieFormat Girc.Props.TieState Girc.Props.TieSasl Girc.Props.TieRate Girc.Props.TieCommands Girc.Props.TieCap"
-if [ "${1:-}" = "suite" ]; then
+TIE_MODULES="Girc.Props.TieNames Girc.Props.TieGlob Girc.Props.TieWire Girc.Props.TieModes Girc.Props.TieCtcp Girc.Props.TieFormat Girc.Props.TieState Girc.Props.TieSasl Girc.Props.TieRate Girc.Props.TieCommands Girc.Props.TieCap Girc.Props.TieSplit Girc.Props.TieSts"
+if [ "${1:-}" = "suite" ] || [ "${1:-}" = "suite4" ]; then
   me="$0"; rc=0
   run() { out="$("$me" "$@")"; echo "$out"; case "$out" in *"=> OK"*) ;; *) rc=1;; esac; }
+  phase4() {
+  # phase 4: (*Event).split / Copy, sliceInsert, the remaining helpers, the STS clock predicates
+  run split-ctcp4      event.go    's/maxLength -= len\(ctcp.Command\) \+ 4/maxLength -= len(ctcp.Command) + 3/'
+  run split-lt         event.go    's/if event.LenOpts\(false\) < maxLength \{/if event.LenOpts(false) <= maxLength {/'
+  run split-width      event.go    's/splitMessage\(text, maxLength-cmdLen\)/splitMessage(text, maxLength-cmdLen-1)/'
+  run split-source     event.go    's/\t\tclonedEvent.Source = e.Source\n//'
+  run split-callee     event.go    's/range splitMessage\(/range splitMsg(/'
+  run copy-params      event.go    's/\t\tcopy\(newEvent.Params, e.Params\)\n//'
+  run sourcecopy-host  event.go    's/Host:  s.Host,/Host:  s.Ident,/'
+  run eventequals-neq  event.go    's/if e.Params\[i\] != ev.Params\[i\] \{/if e.Params[i] == ev.Params[i] {/'
+  run eventstring      event.go    's/return string\(e.Bytes\(\)\)/return string(e.Source.Bytes())/'
+  run sliceinsert-inpl format.go   's/copy\(output\[i:\], v\)/copy(output[i+1:], v)/'
+  run sliceinsert-allo format.go   's/copy\(output, input\[:i\]\)/copy(output[1:], input[:i])/'
+  run tagscount-nil    cap_tags.go 's/func \(t Tags\) Count\(\) int \{\n\tif t == nil \{\n\t\treturn 0/func (t Tags) Count() int {\n\tif t == nil {\n\t\treturn 1/'
+  run tagsequals-key   cap_tags.go 's/tt.Get\("account"\)/tt.Get("accounts")/'
+  run tagsremove-nodel cap_tags.go 's/\t\tdelete\(t, key\)\n//'
+  run tagskeys-append  cap_tags.go 's/keys = append\(keys, key\)/keys = append(keys, key, key)/'
+  run encodectcp-nil   ctcp.go     's/func EncodeCTCP\(ctcp \*CTCPEvent\) \(out string\) \{\n\tif ctcp == nil \{\n\t\treturn ""/func EncodeCTCP(ctcp *CTCPEvent) (out string) {\n\tif ctcp == nil {\n\t\treturn "x"/'
+  run parsecmd-digit   ctcp.go     "s/cmd\\[i\\] > '9'/cmd[i] > '8'/"
+  run sts-expired-ge   state.go    's/Seconds\(\)\) > s.persistenceDuration/Seconds()) >= s.persistenceDuration/'
+  run sts-enabled-ge   state.go    's/return s.upgradePort > 0/return s.upgradePort >= 0/'
+  run sts-reset-dur    state.go    's/s.persistenceDuration = -1/s.persistenceDuration = 0/'
+  # not a semantic change (a local variable renamed in split): Funcs.lean changes, the Tie modules still build
+  run split-rename     event.go    's/\bclonedEvent\b/cloned/g' pass
+  }
+  if [ "$1" = "suite4" ]; then phase4; exit $rc; fi
   # first phase (16 functions)
   run nick-brace      format.go   "s/nick\\[i\\] > '\\}'/nick[i] > '~'/"
   run rfc1459-94      format.go   's/<= 94/<= 93/'
@@ -75,6 +102,7 @@ if [ "${1:-}" = "suite" ]; then
   # cap.go parseCap
   run parsecap-val     cap.go      's/if val < 1 \|\| len\(parts\[i\]\) < val\+1/if val < 0 || len(parts[i]) < val+1/'
   run parsecap-opt     cap.go      's/out\[parts\[i\]\[:val\]\]\[option\[:j\]\] = option\[j\+1:\]/out[parts[i][:val]][option[:j]] = option[j:]/'
+  phase4
   # not a semantic change (a local variable renamed in Apply): Funcs.lean changes, the Tie modules still build
   run apply-rename     modes.go    's/\bnewModes\b/nmodes/g' pass
   # not a semantic change: must still build
